@@ -13,6 +13,8 @@
 package c08
 
 import (
+	"runtime"
+	"sync"
 	"bytes"
 	"fmt"
 	"net/netip"
@@ -32,6 +34,7 @@ import (
 	"mycoverif/mesh"
 	"mycoverif/node"
 	"mycoverif/simnet"
+	"mycoverif/simsync"
 )
 
 type layer struct {
@@ -110,9 +113,17 @@ func tableKey(n *node.Node) string {
 	return b.String()
 }
 
+// burstOps counts the lock operations of router/, state/ and storage/ since two announcements
+// were handed to V together; switchAt are the two counts at which the processor changes hands.
+var (
+	burstOps int
+	switchAt [2]int
+)
+
 func run(e *core.Env) {
 	tp := e.Tape
 	e.StartClock()
+	burstOps, switchAt = 0, [2]int{}
 	// Line n0 - n1 - ... - P - V, plus Y as a second peer of V.
 	lineLen := 2 + tp.Intn(5) // routers before V
 	n := lineLen + 2
@@ -135,6 +146,50 @@ func run(e *core.Env) {
 	ms := mesh.Build(e, mesh.Options{MinNodes: n, MaxNodes: n, Edges: edges, TwoByteLabels: true, BigInfo: true})
 	V, Y, P := ms.Nodes[vi], ms.Nodes[yi], ms.Nodes[pi]
 	parser := frame.NewFrameBuilder()
+	// A router handles frames with one worker per CPU. In half of the runs the workers of one
+	// router may overtake each other: at the lock boundaries of router/ and state/ (import-path
+	// overlay sync -> simsync) a seeded coin hands the processor to another runnable goroutine.
+	// It matters where two announcements reach V in the same instant (below).
+	if every := []int{0, 0, 2, 3, 5}[tp.Intn(5)]; every > 0 {
+		ys := tp.Uint64() | 1
+		var ymu sync.Mutex
+		switches := 0
+		simsync.Blocking = true
+		simsync.Yield = func(op string) {
+			if switchAt[0] > 0 {
+				// two announcements are being handled side by side: instead of a coin at every
+				// lock operation, the processor changes hands at two chosen lock operations (counted
+				// over all workers from the moment the two frames arrived) - every alignment of
+				// the two handlers is then about equally likely
+				ymu.Lock()
+				burstOps++
+				hit := burstOps == switchAt[0] || burstOps == switchAt[1]
+				ymu.Unlock()
+				if hit {
+					switches++
+					runtime.Gosched()
+				}
+				return
+			}
+			ymu.Lock()
+			ys += 0x9e3779b97f4a7c15
+			z := ys
+			z = (z ^ (z >> 30)) * 0xbf58476d1ce4e5b9
+			z = (z ^ (z >> 27)) * 0x94d049bb133111eb
+			z ^= z >> 31
+			ymu.Unlock()
+			if z%uint64(every) == 0 {
+				switches++
+				runtime.Gosched()
+			}
+		}
+		e.Cleanup(func() {
+			simsync.Yield = nil
+			simsync.Blocking = false
+			e.ProbeN("lock_boundary_task_switches", switches)
+		})
+		e.Fault("task_switch")
+	}
 	byIP := ms.ByIP
 
 	// Productions: instance -> signer -> set of nested blobs it put on a link.
@@ -481,9 +536,79 @@ func run(e *core.Env) {
 
 			// ---- honest delivery ----
 			before := V.Router.Table().VerifEntries()
-			inject(lPV, append([]byte(nil), orig...))
+			burst := false
+			if tp.Chance(1, 3) {
+				// a second genuine announcement - of another origin - reaches V in the same instant:
+				// two of V's workers handle them side by side
+				for _, cj := range tp.Perm(len(captured)) {
+					of, err := mesh.ParseCrossing(parser, captured[cj])
+					if err != nil {
+						continue
+					}
+					otherOrigin := of.SrcIP()
+					of.ReturnToPool()
+					if cj == ci || otherOrigin == origin {
+						continue
+					}
+					p1 := &simnet.Packet{Conn: lPV.ConnID(), Dir: 9, Seq: 1, From: lPV, To: lPV.Other, Data: append([]byte(nil), orig...), Tag: "adv", NoDelay: true}
+					p2 := &simnet.Packet{Conn: lPV.ConnID(), Dir: 9, Seq: 2, From: lPV, To: lPV.Other, Data: append([]byte(nil), captured[cj]...), Tag: "adv", NoDelay: true}
+					if tp.Chance(1, 2) {
+						p1, p2 = p2, p1
+					}
+					burstOps, switchAt = 0, [2]int{1 + tp.Intn(60), 1 + tp.Intn(120)}
+					ms.Net.DeliverRaw(p1)
+					ms.Net.DeliverRaw(p2)
+					simnet.Wait()
+					switchAt = [2]int{}
+					burst = true
+					if e.Trace {
+						e.Logf("burst: orig origin=%s depth=%d with origin=%s (swapped=%v)", ms.Nodes[byIP[origin]].Name, depth, ms.Nodes[byIP[otherOrigin]].Name, p1.Seq == 2)
+						for _, en := range V.Router.Table().VerifEntries() {
+							if en.DstIP == origin {
+								e.Logf("  after: route to %s hops=%d d1=%d exp=%s", ms.Nodes[byIP[en.DstIP]].Name, len(en.Path.Hops), en.Path.Hops[1].Delay, en.Expires.Format("15:04:05"))
+							}
+						}
+						for cx, oc := range captured {
+							if of, err := mesh.ParseCrossing(parser, oc); err == nil {
+								if of.SrcIP() == origin {
+									ls2, _ := parseChain(of.AppendixData())
+									d0 := -1
+									if len(ls2) > 0 {
+										d0 = int(ls2[0].at.Delay)
+									}
+									e.Logf("  captured[%d] origin=%s depth=%d d0=%d seqtime=%s self=%v", cx, ms.Nodes[byIP[origin]].Name, len(ls2), d0, of.(*frame.FrameV1).SequenceTime().Format("15:04:05.000"), cx == ci)
+								}
+								of.ReturnToPool()
+							}
+						}
+						for _, en := range before {
+							if en.DstIP == origin {
+								e.Logf("  before: route to %s hops=%d d1=%d exp=%s", ms.Nodes[byIP[en.DstIP]].Name, len(en.Path.Hops), en.Path.Hops[1].Delay, en.Expires.Format("15:04:05"))
+							}
+						}
+					}
+					e.Probe("two_announcements_handled_side_by_side")
+					break
+				}
+			}
+			if !burst {
+				inject(lPV, append([]byte(nil), orig...))
+			}
 			ms.CheckPanics("worker-panic")
 			after := V.Router.Table().VerifEntries()
+			if burst {
+				// only what V holds for this origin is judged here (the other announcement is
+				// judged when its turn comes)
+				only := func(es []m.RoutingTableEntry) (out []m.RoutingTableEntry) {
+					for _, en := range es {
+						if en.DstIP == origin {
+							out = append(out, en)
+						}
+					}
+					return out
+				}
+				before, after = only(before), only(after)
+			}
 			// Look for a route to the origin via P whose relays are exactly the signers.
 			wantRouters := []netip.Addr{V.IP}
 			for _, l := range ls {
@@ -507,6 +632,13 @@ func run(e *core.Env) {
 				}
 			}
 			changed := len(before) != len(after) || tableKeyOf(before) != tableKeyOf(after)
+			if burst && !changed {
+				// Nothing was learned from this delivery: of two frames that arrive in the same
+				// instant a router may shed one when no worker is idle (load shedding, not an
+				// acceptance), and what the table holds is then the outcome of earlier deliveries.
+				found = nil
+				e.Probe("burst_without_change_for_this_origin")
+			}
 			if found != nil {
 				if found.NextHop != P.IP {
 					e.Fail("next-hop-is-not-delivering-peer", "route learned from an announcement delivered by P has next hop %s", found.NextHop)
